@@ -1086,8 +1086,18 @@ func (vm *VirtualMachine) importModule(ctx context.Context, name string) (*objec
 	baseSP := vm.sp
 	code := vm.loadCode(module.Code())
 	vm.activateCode(vm.fp+1, 0, code)
-	// Restore the previous frame when done
-	defer vm.resumeFrame(baseFP, baseIP, baseSP)
+	// Restore the previous frame when done. The value of the module's last
+	// statement (or the operands of a failed one) is not a result of the import:
+	// discard it, otherwise every first import leaves one operand behind.
+	defer func() {
+		for i := vm.sp; i > baseSP; i-- {
+			vm.stack[i] = nil
+		}
+		if vm.sp > baseSP {
+			vm.sp = baseSP
+		}
+		vm.resumeFrame(baseFP, baseIP, baseSP)
+	}()
 	// Evaluate the module code
 	if err := vm.eval(ctx); err != nil {
 		return nil, err
